@@ -18,7 +18,10 @@ type route struct {
 	general bool
 	control string // "" normal (copy must be independent) | "ref" | "handle" (write-through expected)
 	origin  func(u int) (setup, lv string)
-	apply   func(u int, live []string, src int) (pre, post string, inner []string)
+	// originBuild: the original lives where only the route's own code can build it (a static local);
+	// lv is then a read-only expression (a call), snapshotted but never mutated
+	originBuild func(u int, build func(lv string) string) (setup, lv string)
+	apply       func(u int, live []string, src int) (pre, post string, inner []string)
 }
 
 const prelude = `class O { public $p = null; public $q = 0; }
@@ -43,6 +46,10 @@ func flat(name string, general bool, origin func(u int) (string, string), stmt f
 	}}
 }
 
+// isRO: a live name that is a call expression (original reachable only through a function) can be
+// snapshotted but not written or bound by reference.
+func isRO(lv string) bool { return strings.HasSuffix(lv, ")") }
+
 func paramRoute(name string, byRef bool) route {
 	r := route{name: name, general: true}
 	if byRef {
@@ -55,13 +62,18 @@ func paramRoute(name string, byRef bool) route {
 		}
 		params := []string{fmt.Sprintf("%s$p%d", amp, u)}
 		var inner []string
+		args := []string{live[src]}
 		for i := range live {
+			if isRO(live[i]) {
+				inner = append(inner, live[i]) // functions are global: the same call works inside f
+				continue
+			}
 			params = append(params, fmt.Sprintf("&$r%d_%d", u, i))
 			inner = append(inner, fmt.Sprintf("$r%d_%d", u, i))
+			args = append(args, live[i])
 		}
 		inner = append(inner, fmt.Sprintf("$p%d", u))
 		pre := snapLine("P", live) + fmt.Sprintf("function f%d(%s) {\n", u, strings.Join(params, ", "))
-		args := append([]string{live[src]}, live...)
 		post := fmt.Sprintf("return 0;\n}\nf%d(%s);\n", u, strings.Join(args, ", ")) + snapLine("F", live)
 		return pre, post, inner
 	}
@@ -102,6 +114,23 @@ func routes() []route {
 		}),
 		flat("fpushstore", true, nil, func(u int, src string) (string, string) {
 			return fmt.Sprintf("$y%d = [0];\narray_push($y%d, %s);\n", u, u, src), fmt.Sprintf("$y%d[1]", u)
+		}),
+		// `$x = f(...)` where f hands back an array that is STORED somewhere (not a fresh local)
+		{name: "fstatic", originBuild: func(u int, build func(lv string) string) (string, string) {
+			return fmt.Sprintf("function sget%d() {\nstatic $s = null;\nif ($s === null) {\n%s}\nreturn $s;\n}\n", u, build("$s")), fmt.Sprintf("sget%d()", u)
+		}, apply: func(u int, live []string, src int) (string, string, []string) {
+			return fmt.Sprintf("$b%d = sget%d();\n", u, u), "", append(append([]string{}, live...), fmt.Sprintf("$b%d", u))
+		}},
+		flat("fglobal", false, func(u int) (string, string) { return "", fmt.Sprintf("$g%d", u) }, func(u int, src string) (string, string) {
+			return fmt.Sprintf("function gget%d() { global $g%d; return $g%d; }\n$b%d = gget%d();\n", u, u, u, u, u), fmt.Sprintf("$b%d", u)
+		}),
+		flat("fprop", false, objOrigin, func(u int, src string) (string, string) {
+			return fmt.Sprintf("function pget%d($o) { return $o->p; }\n$b%d = pget%d($o%d);\n", u, u, u, u), fmt.Sprintf("$b%d", u)
+		}),
+		flat("fend", false, func(u int) (string, string) {
+			return fmt.Sprintf("$m%d = [0, 0];\n", u), fmt.Sprintf("$m%d[1]", u)
+		}, func(u int, src string) (string, string) {
+			return fmt.Sprintf("$b%d = end($m%d);\n", u, u), fmt.Sprintf("$b%d", u)
 		}),
 		{name: "foreach", origin: func(u int) (string, string) {
 			return fmt.Sprintf("$w%d = [0];\n", u), fmt.Sprintf("$w%d[0]", u)
@@ -204,12 +233,19 @@ func (k kase) build() built {
 	var sb strings.Builder
 	sb.WriteString(prelude)
 	lv0 := "$a"
-	if rs[0].origin != nil {
+	switch {
+	case rs[0].originBuild != nil:
+		setup, lv := rs[0].originBuild(1, func(l string) string { return sh.build(l, k.Rot) })
+		sb.WriteString(setup)
+		lv0 = lv
+	case rs[0].origin != nil:
 		setup, lv := rs[0].origin(1)
 		sb.WriteString(setup)
 		lv0 = lv
+		sb.WriteString(sh.build(lv0, k.Rot))
+	default:
+		sb.WriteString(sh.build(lv0, k.Rot))
 	}
-	sb.WriteString(sh.build(lv0, k.Rot))
 	live := []string{lv0}
 	var posts []string
 	for i, r := range rs {
@@ -231,7 +267,7 @@ func (k kase) build() built {
 	sb.WriteString(snapLine("S", live))
 	for j, st := range k.Steps {
 		m, ok := mutByName(st.Mut)
-		if !ok || st.Target < 0 || st.Target >= len(live) {
+		if !ok || st.Target < 0 || st.Target >= len(live) || isRO(live[st.Target]) {
 			return built{}
 		}
 		src := m.src(live[st.Target], models[st.Target])
